@@ -1,0 +1,21 @@
+//go:build verif
+
+// Contracts for the deductive verifier in /verif (comment-only: adds no declarations).
+package sshagent
+
+//@ import "golang.org/x/crypto/ssh"
+//@ import "golang.org/x/crypto/ssh/agent"
+//@ use logging
+
+// ---- C19: certificates installed in the agent replace earlier ones with the same label ---------------------------
+// identities the agent listed / identities the clean-up loop looked at
+//@ ghost var ghostListed int
+//@ ghost var ghostExamined int
+//@ func deleteDuplicateEntries
+//@   handler deleteDuplicateEntries
+//@   atcall agent.ExtendedAgent).List sets ghostListed int (a agent.ExtendedAgent, keys []*agent.Key, err2 error) :: len(keys) if err2 == nil
+//@   atcall ssh.ParsePublicKey sets ghostExamined int (in []byte, out ssh.PublicKey, err2 error) :: ghostExamined + 1
+//@   ensures ret1 == nil ==> ghostExamined == ghostListed                      #C19.every-identity-examined @C19
+//@   loop 1 (rangeindex int) invariant ghostExamined == rangeindex + 1          #C19.examined-in-step @C19
+// the clean-up precedes every insertion
+//@ callers agent.ExtendedAgent).Add only withAddedKeyUpsertCertIntoAgentConnection   #C19.insert-only-after-cleanup @C19
